@@ -37,3 +37,33 @@ Proof.
     + injection H as Hc Hr. subst c2. cbn in H1, H2. apply andb_true_iff in H1, H2.
       destruct (IH r2 (proj2 H1) (proj2 H2) Hr) as [-> ->]. auto.
 Qed.
+
+(* generated names tell Rollouts of one namespace apart: different stable Services get different canary Services *)
+Lemma list_of_append a b : list_ascii_of_string (a ++ b) = (list_ascii_of_string a ++ list_ascii_of_string b)%list.
+Proof. induction a as [|c a IH]; cbn; [reflexivity|]. rewrite IH. reflexivity. Qed.
+Lemma canary_service_name_injective a b : canary_service_name a = canary_service_name b -> a = b.
+Proof.
+  unfold canary_service_name. intros H. apply (f_equal list_ascii_of_string) in H. rewrite !list_of_append in H.
+  apply app_inv_tail in H. rewrite <- (string_of_list_ascii_of_string a), <- (string_of_list_ascii_of_string b), H. reflexivity.
+Qed.
+
+(* the watch registry: a reconcile goes on to the Rollout's logic only when a watch for its workload type has been
+   registered successfully before -- whatever other Rollouts (of that or other types) did in between, failures included *)
+Definition wres_eqb (a b : wres) : bool := match a, b with WProceed, WProceed | WWatchedNow, WWatchedNow | WError, WError => true | _, _ => false end.
+Fixpoint watched_after (watched : list string) (ops : list (string * bool)) : list string :=
+  match ops with [] => watched | (g, ok) :: t => watched_after (snd (watch_step watched g ok)) t end.
+Lemma watch_step_registry w g ok x : In x (snd (watch_step w g ok)) <-> In x w \/ (x = g /\ ok = true /\ existsb (String.eqb g) w = false).
+Proof.
+  unfold watch_step. destruct (existsb (String.eqb g) w) eqn:E; cbn [snd]; [intuition congruence|].
+  destruct ok; cbn [snd In]; intuition congruence.
+Qed.
+Theorem registered_only_by_a_successful_watch : forall ops w0 x, In x (watched_after w0 ops) ->
+  In x w0 \/ In (x, true) ops.
+Proof.
+  induction ops as [|[g ok] t IH]; intros w0 x H; [left; exact H|]. cbn [watched_after] in H.
+  destruct (IH _ _ H) as [Hw|Ht]; [|right; right; exact Ht].
+  apply watch_step_registry in Hw. destruct Hw as [Hw|[-> [-> _]]]; [left; exact Hw|right; left; reflexivity].
+Qed.
+(* and a failed registration leaves the registry as it was: the next Rollout of that type tries again *)
+Theorem failed_watch_changes_nothing w g : existsb (String.eqb g) w = false -> watch_step w g false = (WError, w).
+Proof. intros H. unfold watch_step. rewrite H. reflexivity. Qed.
